@@ -13,6 +13,7 @@ Not decided: "resume within the retry budget" (liveness over fault sequences).
 import ast
 
 from ..model import self_attr, unparse, walk_body_shallow
+from .util import *  # noqa: F401,F403
 from .util import expand, case_reach, filtered_collects, isinstance_classes, at, call_name, call_recv, calls_in, kwarg, need, node_assign_value, norm, where
 
 TECHNIQUE = "index-variable def-use in the merge, guard-fact dominance of removals, exhaustiveness of the invalidation table"
@@ -178,18 +179,33 @@ def run(ctx):
     ch = ctx.cfg(hr)
     table = {("UnknownTopicOrPartitionError", "NotLeaderForPartitionError"): ("reset_topic_metadata", ".topic"),
              ("CoordinatorLoadInProgress", "NotCoordinator", "CoordinatorNotAvailable"): ("reset_consumer_group_metadata", "consumer_group")}
+    from .c09 import exc_table
+    anc_, _alias = exc_table(prog)
+    tries = [x for x in walk_body_shallow(hr.body) if isinstance(x, ast.Try) and any(
+        isinstance(c, ast.Call) and call_name(c) == "raise_for_errno" for b in x.body for c in ast.walk(b))]
+    need(len(tries) == 1, "the try around raise_for_errno not found in _handle_responses")
     for classes, (meth, argend) in sorted(table.items()):
         for cls in classes:
-            hs = [n for n in ch.nodes if n.kind == "except" and n.stmt.type is not None and cls in [
-                unparse(e).split(".")[-1] for e in (n.stmt.type.elts if isinstance(n.stmt.type, ast.Tuple) else [n.stmt.type])]]
-            ok = len(hs) == 1
+            # the arm an error of this class takes: the handler that catches it, then - inside - the branches an
+            # isinstance() dispatch on the caught exception selects for this class
+            hn = handler_for(prog, ch, tries[0], cls, anc_)
+            ok = hn is not None
             if ok:
-                arm = [ch.nodes[i] for i in ch.reach([hs[0].id])]
-                res = [n for n in arm if any(call_name(c) == meth and c.args and norm(c.args[0]).endswith(argend) for c in n.calls())
-                       and ch.dominates([hs[0].id], n.id)]
-                rais = [n for n in arm if n.kind == "stmt" and isinstance(n.stmt, ast.Raise) and ch.dominates([hs[0].id], n.id)]
-                ok = len(res) >= 1 and ch.dominates([hs[0].id], res[0].id) and all(ch.dominates([res[0].id], x.id) for x in rais) and \
-                    not [t for t, lab in ch.control_deps(res[0].id) if hs[0].id in ch._reaching_to(t.id)]
+                evar = hn.stmt.name
+
+                def leaf(t, cls=cls, evar=evar):
+                    cs_ = isinstance_classes(prog, hr, t, evar) if evar else None
+                    if cs_ is None:
+                        return None
+                    return any(c in anc_.get(cls, {cls}) for c in cs_)
+
+                def fe(test, p_, case_cls, anc, stopping, env=None):
+                    return tri_eval(test, leaf, env)
+                res = {n.id for n in ch.nodes if any(call_name(c) == meth and c.args and norm(c.args[0]).endswith(argend) for c in n.calls())}
+                arm = ch.reach([hn.id])
+                leave = {n.id for n in ch.nodes if n.id in arm and ((n.kind == "stmt" and isinstance(n.stmt, ast.Raise)) or any(
+                    call_name(c) == "append" for c in n.calls()))} | {ch.exit.id}
+                ok = bool(res) and not case_reach(ch, "", cls, anc_, False, leave, flag_eval=fe, start=[hn.id], avoid=res)
             r.check(ok, "%s#on(%s)->%s" % (hr.qname, cls, meth), "%s does not invalidate the cached routing (before re-raising)" % cls,
                     where(hr, hr.node), "the next request is routed to the same wrong broker, for ever")
     sba = ctx.func(KC + "._send_broker_aware_request")
